@@ -288,3 +288,131 @@ def result_err_ty(ty):
     if last is None:
         return None
     return inner[last + 1:].strip()
+
+
+# ------------------------------------------------------------------------------------------------
+# A5d refinement: a two-byte line terminator split across fill_buf windows
+# ------------------------------------------------------------------------------------------------
+
+def _mentions_cr(f, blk):
+    """Does the block test / use the CR byte (u8 0x0d, char '\\r', the one-byte array [0x0d])?"""
+    def is_cr(k):
+        if k is None:
+            return False
+        v = k.get("v", None)
+        if v == 13 and k.get("ty") in ("u8", "char", "i8", "u32", "usize", "i32"):
+            return True
+        return k.get("raw") == "0d"
+    for st in blk["s"]:
+        if st[0] == "=":
+            for o in R.rvalue_operands(st[2]):
+                if is_cr(C.op_const(o)):
+                    return True
+    t = blk["t"]
+    if t[0] == "call":
+        for a in t[1]["args"]:
+            if is_cr(C.op_const(a)):
+                return True
+    elif t[0] == "sw":
+        if any(v == 13 for v, _tg in t[2]):
+            return True
+    return False
+
+
+def crlf_window_sites(fb):
+    """For every function that scans a fill_buf window for LF with memchr and strips a CR: is some CR test performed on a
+    path that does NOT require the LF to have been found in the same window? Returns list of dict(fn, ok, some_edge, tests)."""
+    out = []
+    for k, f in sorted(fb.fns.items()):
+        if not in_scope(f):
+            continue
+        calls = list(f.calls())
+        if not any((c.get("f") or "").endswith(("::fill_buf", "::poll_fill_buf")) for b, c in calls):
+            continue
+        mem = [(b, c) for b, c in calls if re.search(r"memchr::memchr::memchr2?$|memchr::memchr$", c.get("f") or "")
+               and any((C.op_const(a) or {}).get("v") == 10 for a in c["args"])]
+        if not mem:
+            continue
+        tests = [bi for bi, blk in enumerate(f.blocks) if not blk.get("cu") and _mentions_cr(f, blk)]
+        if not tests:
+            continue
+        # Some-edges of switches on the memchr result's discriminant
+        some_targets = []
+        for b, blk in enumerate(f.blocks):
+            if blk.get("cu") or blk["t"][0] != "sw":
+                continue
+            cond = C.switch_condition(f, b)
+            if not cond or cond[0] != "discr":
+                continue
+            base = cond[1][0]
+            if not any(R.derives_from_local(f, ["c", [base, []]], c["dest"][0]) or base == c["dest"][0] for _b, c in mem):
+                continue
+            vals = dict((v, tg) for v, tg in blk["t"][2])
+            if 1 in vals:
+                some_targets.append((b, vals[1]))
+            elif 0 in vals:
+                some_targets.append((b, blk["t"][3]))
+        if not some_targets:
+            continue
+        # a CR test is window-independent if it is reachable from the entry with the Some-edges removed, or if what it tests
+        # is not the window (e.g. the accumulated destination buffer, which also holds a CR read from an earlier window)
+        reach = C.reachable(f, 0, removed_edges=set(some_targets))
+        is_fill = R.mk_pred(r"::(fill_buf|poll_fill_buf)$")
+
+        def on_window(bi):
+            blk = f.blocks[bi]
+            ops = []
+            for st in blk["s"]:
+                if st[0] == "=":
+                    ops.extend(R.rvalue_operands(st[2]))
+            if blk["t"][0] == "call":
+                ops.extend(blk["t"][1]["args"])
+            return any(R.derives_from_call(f, o, is_fill) for o in ops if o[0] in ("c", "m"))
+        free = [t for t in tests if t in reach or not on_window(t)]
+        out.append({"fn": k, "ok": bool(free), "tests": tests, "free": free, "switch": some_targets[0][0]})
+    return out
+
+
+# ------------------------------------------------------------------------------------------------
+# A5d refinement: a scanner that copies window bytes to a destination copies them on every consuming path
+# ------------------------------------------------------------------------------------------------
+
+APPEND_RX = re.compile(r"(Vec::<T, A>::extend_from_slice|Extend<[^>]*>>::extend|Extend<&'a T>>::extend|string::String::push_str|"
+                       r"ByteVec::push_str|BytesMut::extend_from_slice|Vec::<T, A>::push|string::String::push)$")
+
+
+def copy_before_consume_sites(fb):
+    """Functions with a fill_buf call in a loop, a `consume` call, and at least one append of window-derived bytes to a
+    destination: every path from the fill_buf call to a consume call passes such an append, unless the consumed amount is a
+    constant (a delimiter that is skipped). Returns list of dict(fn, ok, bad_consume_block)."""
+    out = []
+    is_fill = R.mk_pred(r"::(fill_buf|poll_fill_buf)$")
+    for k, f in sorted(fb.fns.items()):
+        if not in_scope(f):
+            continue
+        calls = list(f.calls())
+        fills = [(b, c) for b, c in calls if is_fill(c.get("f") or "") and in_loop(f, b)]
+        cons = [(b, c) for b, c in calls if (c.get("f") or "").endswith(("BufRead::consume", "AsyncBufReadExt::consume", "AsyncBufRead::consume"))
+                or re.search(r"as (std::io::BufRead|tokio::io::async_buf_read::AsyncBufRead)>::consume$", c.get("f") or "")]
+        if not fills or not cons:
+            continue
+        appends = {b for b, c in calls if APPEND_RX.search(c.get("f") or "")
+                   and any(R.derives_from_call(f, a, is_fill) for a in c["args"][1:])}
+        if not appends:
+            continue      # a pure skipper (discard_line, consume_line)
+        bad = None
+        for fbk, fc in fills:
+            if fc["t"] is None:
+                continue
+            reach = C.reachable(f, fc["t"], removed=appends | {fbk})
+            for cb, cc in cons:
+                if cb in reach and cb not in appends:
+                    amt = cc["args"][-1]
+                    if C.eval_const(f, amt) is not None:
+                        continue      # consume(1): a delimiter byte
+                    bad = cb
+                    break
+            if bad is not None:
+                break
+        out.append({"fn": k, "ok": bad is None, "bad": bad, "appends": sorted(appends)})
+    return out
